@@ -58,6 +58,28 @@ pub fn reg(m: &mut Map) {
         let r = RE::pairing(RG1::generator() * rfr(&a), RG2::generator() * rfr(&b));
         both(ser(&o), ser(&r), false)
     });
+    // the target field used AS A FIELD (tower configuration: Frobenius coefficients, non-residues): both engines on e(aG1, bG2)
+    opx!(m, "bls.gt.frobenius", (k: u128, a: fq, b: fq), rs, {
+        use ark_ff::Field;
+        let o = OE::pairing(OG1::generator() * a, OG2::generator() * b).0.frobenius_map(k as usize);
+        let r = RE::pairing(RG1::generator() * rfr(&a), RG2::generator() * rfr(&b)).0.frobenius_map(k as usize);
+        both(ser(&o), ser(&r), true)
+    });
+    opx!(m, "bls.gt.field_ops", (a: fq, b: fq, c: fq), rs, {
+        use ark_ff::Field;
+        let o1 = OE::pairing(OG1::generator() * a, OG2::generator() * b).0;
+        let o2 = OE::pairing(OG1::generator() * c, OG2::generator()).0;
+        let r1 = RE::pairing(RG1::generator() * rfr(&a), RG2::generator() * rfr(&b)).0;
+        let r2 = RE::pairing(RG1::generator() * rfr(&c), RG2::generator()).0;
+        // sum, product, inverse of the sum, square, and the coordinates' own Frobenius (Fq6 / Fq2 level)
+        let mut ov = ser(&(o1 + o2)); ov.extend(ser(&(o1 * o2))); ov.extend(ser(&(o1 + o2).inverse().unwrap_or(o1))); ov.extend(ser(&(o1 + o2).square()));
+        let mut rv = ser(&(r1 + r2)); rv.extend(ser(&(r1 * r2))); rv.extend(ser(&(r1 + r2).inverse().unwrap_or(r1))); rv.extend(ser(&(r1 + r2).square()));
+        for k in 0..7usize {
+            ov.extend(ser(&(o1 + o2).c0.frobenius_map(k))); ov.extend(ser(&(o1 + o2).c1.c2.frobenius_map(k)));
+            rv.extend(ser(&(r1 + r2).c0.frobenius_map(k))); rv.extend(ser(&(r1 + r2).c1.c2.frobenius_map(k)));
+        }
+        both(ov, rv, true)
+    });
     // pairing of arbitrary (compressed, validated) points
     opx!(m, "bls.pair.bytes", (p: by, q: by), rs, {
         let o = match (<OE as Pairing>::G1Affine::deserialize_compressed(&p[..]), <OE as Pairing>::G2Affine::deserialize_compressed(&q[..])) {
